@@ -31,11 +31,12 @@ theorem mkCustom_ok {shape : List Nat} {rows : List (List Int)} {l : Lat} (h : m
           simp only [Bool.not_eq_true, Bool.not_eq_false', List.all_eq_true, List.mem_range, beq_iff_eq] at h3
           exact h3 i hi
 
-/-- well-formed lattices: what the constructors guarantee, plus extents `≥ 1` for brick/hexagonal shapes -/
+/-- well-formed lattices: what the constructors guarantee (odd-face-centred: no periodic axis of extent 1 – the constructor
+even demands even extents there; customized: validated matrix), plus extents `≥ 1` for brick/hexagonal shapes -/
 def Lat.WF : Lat → Prop
   | .integer _ _ => True
   | .triangular _ _ => True
-  | .ofc _ _ _ => True
+  | .ofc n0 n1 pbc => NoTrivialWrap [n0, n1] pbc
   | .brick b => 1 ≤ b.m ∧ 1 ≤ b.n
   | .hex m n _ => 1 ≤ m ∧ 1 ≤ n
   | .full _ => True
@@ -68,7 +69,7 @@ theorem adj_symm (l : Lat) (h : l.WF) (i j : Nat) : l.adj i j = l.adj j i := by
     · exact Or.inr ⟨b, a, c.symm⟩
   | ofc n0 n1 pbc =>
     apply bool_eq_of_iff
-    simp only [Lat.adj, ofcAdj_iff]
+    simp only [Lat.adj, ofcAdj_iff n0 n1 pbc h]
     exact ⟨fun ⟨a, b, c⟩ => ⟨b, a, c.symm⟩, fun ⟨a, b, c⟩ => ⟨b, a, c.symm⟩⟩
   | brick b =>
     apply bool_eq_of_iff
@@ -106,7 +107,7 @@ theorem adj_irrefl (l : Lat) (h : l.WF) (i : Nat) : l.adj i i = false := by
     · exact GridNN.irrefl c
     · exact DiagNN.irrefl c
   | ofc n0 n1 pbc =>
-    rw [Bool.eq_false_iff]; simp only [Lat.adj, ne_eq, ofcAdj_iff]
+    rw [Bool.eq_false_iff]; simp only [Lat.adj, ne_eq, ofcAdj_iff n0 n1 pbc h]
     rintro ⟨_, _, c⟩; exact OfcNN.irrefl c
   | brick b =>
     rw [Bool.eq_false_iff]; simp only [Lat.adj, ne_eq, Brick.adj_iff b h.1 h.2]
